@@ -259,6 +259,14 @@ def r3_totality(ctx):
             ctx.missing("R03.3", "enum protocol::frame::Command")
         return
     ctx.floor("R03.3", "Command variants", len(variants), 11)
+    # the codes are the protocol's (AnyTLS: cmdWaste 0 .. cmdServerSettings 10): a codec that renumbers a command on *both* of its own
+    # directions still round-trips with itself, but what it calls "unknown, inert padding" is then another byte than the peer's —
+    # the byte a conforming peer sends for that command is dropped as padding, and a byte that should be inert is acted on
+    WIRE = {"Waste": 0, "Syn": 1, "Push": 2, "Fin": 3, "Settings": 4, "Alert": 5, "UpdatePaddingScheme": 6, "SynAck": 7, "HeartRequest": 8, "HeartResponse": 9, "ServerSettings": 10}
+    drift = [(n_, d_) for n_, d_ in variants if n_ in WIRE and WIRE[n_] != d_]
+    ctx.ob("R03.3", "Command:codes-are-the-protocol's", not drift, "src/protocol/frame.rs", "the eleven command codes are 0..10 as the protocol defines them" if not drift else
+           "Command::%s is encoded as byte %d; the protocol's code is %d: against any other implementation the frame is dropped as padding, and the protocol's own byte %d is no longer understood"
+           % (drift[0][0], drift[0][1], WIRE[drift[0][0]], WIRE[drift[0][0]]))
     conds = ctx.conds(frm)
     sw = [c for c in conds.all() if c.kind == "int"]
     if not sw:
